@@ -545,7 +545,8 @@ class Collection(object):
             # Rollback
             del self._store[object_id]
             raise
-        return data['_id']
+        # Hand out a copy: an embedded-document _id is part of the stored document.
+        return copy.deepcopy(data['_id'])
 
     def _ensure_uniques(self, new_data):
         # Note we consider new_data is already inserted in db
